@@ -110,6 +110,12 @@ class Check:
     def describe(self, program):
         return program
 
+    def on_worker_death(self, ctx, program, d):
+        """The library process died (crash, exit(), abort, sanitizer report, hang) in the middle of a case.  No listed
+        property can hold for a call that never returns, so by default this is a violation of the running check."""
+        tail = [l for l in (d.stderr or "").splitlines() if "ERROR:" in l or "SUMMARY" in l or " #0 " in l or " #1 " in l or " #2 " in l or " #3 " in l][:6]
+        return Violation("the library process died during the case (%s %s)%s" % (d.how, d.detail, (": " + " | ".join(x.strip()[:160] for x in tail)) if tail else ""), program)
+
 
 # -------------------------------------------------------------------------------------------------
 def build(variants):
@@ -156,7 +162,7 @@ def hyp_search(check, ctx, tier, examples, seed):
             ctx.worker_deaths += 1
             if len(ctx.extra.setdefault("worker_death_samples", [])) < 3:
                 ctx.extra["worker_death_samples"].append({"how": d.how, "detail": d.detail, "stderr_tail": d.stderr[-600:], "program": program})
-            v = check.on_worker_death(ctx, program, d) if hasattr(check, "on_worker_death") else None
+            v = check.on_worker_death(ctx, program, d)
             if v is not None:
                 v.program = program
                 state["last"] = v
@@ -219,7 +225,7 @@ def confirm(check, tier, seed, program, times=3):
                 n += 1
                 last = v
             except WorkerDied as d:
-                v = check.on_worker_death(ctx, program, d) if hasattr(check, "on_worker_death") else None
+                v = check.on_worker_death(ctx, program, d)
                 if v is not None:
                     n += 1
                     last = v
@@ -333,6 +339,22 @@ def main(check_cls, argv=None):
             if n:
                 violations.append((v.what, program, os.path.join(rdir, fn)))
 
+    # 1b. open known findings: each listed finding has a deterministic probe; it is reported while it still manifests
+    kf_probe_hits = {}
+    reg0 = kfmod.Registry(check.pid)
+    for e in reg0.entries:
+        if e.get("status", "open").startswith("open") and hasattr(check, "probe_known"):
+            ctx = Ctx(check.pid, tier, seed, replaying=True)
+            try:
+                check.setup(ctx)
+                if check.probe_known(ctx, e):
+                    kf_probe_hits[e["id"]] = kf_probe_hits.get(e["id"], 0) + 1
+            except Exception:
+                harness_note = traceback.format_exc()
+                print("known-finding probe %s failed to run:\n%s" % (e["id"], harness_note[-800:]))
+            finally:
+                ctx.env.cleanup()
+
     # 2. generated search, sharded ----------------------------------------------------------------
     b = check.budget(tier)
     nshards = int(os.environ.get("VERIF_SHARDS", b.get("shards", 8)))
@@ -359,6 +381,8 @@ def main(check_cls, argv=None):
             harness_errors.append(part["error"])
     merged = merge(parts) if parts else merge([])
     merged["extra"]["replays_run"] = nreplays
+    for kid, n in kf_probe_hits.items():
+        merged["kf_hits"][kid] = merged["kf_hits"].get(kid, 0) + n
 
     # 3. confirm violations (3 fresh replays) -------------------------------------------------------
     unconfirmed = 0
